@@ -38,6 +38,7 @@ def lr_functions(ctx, name):
 def run(ctx):
     ctx.step(modify_rules, ctx)
     ctx.step(handler_rules, ctx)
+    ctx.step(lr_handlers, ctx, "C03.rollback")
     ctx.step(reader_rules, ctx)
     ctx.step(deleter_rules, ctx)
     ctx.step(common.atomic_floors, ctx, "C03.sc", [LR, DEL], floor=20, files=["lr_guarded.hpp"])
@@ -306,3 +307,72 @@ def handler_rules(ctx, rid="C03.handlers"):
                     ctx.ob(rid, ok, f.loc(d), "the handler writes only through %s (the copy being modified in this try)" % applied,
                            "" if ok else "it writes through %s: the copy readers are using (or will be directed to) "
                            "is overwritten while they may be reading it" % pv, fn=f.label, inst=f.qname)
+
+
+def lr_handlers(ctx, rid="C20.lr"):
+    ctx.rule(rid, "lr_guarded::modify: both applications are covered by catch(...) handlers that restore the written copy "
+             "from the other copy and rethrow; the first application precedes every flag store", floor=8)
+    fs = lr_functions(ctx, "modify")
+    if not fs:
+        ctx.broken("lr_guarded::modify not instantiated")
+    for f in fs:
+        tries = [s for s in f.stmts.values() if s["k"] == "CXXTryStmt"]
+        applies = [s for s in f.stmts.values() if s["k"] == "CXXOperatorCallExpr" and s.get("op") == "()" and len(s["args"]) >= 2
+                   and (path(f, f.s(s["args"][0])) or "").startswith("p:")]
+        ok = len(applies) == 2
+        ctx.ob(rid, ok, f.where, "modify applies the functor exactly twice", "" if ok else str(len(applies)), fn=f.label, inst=f.qname)
+        ptrs = []
+        for a in applies:
+            tgt = unwrap(f, f.s(a["args"][1]))
+            pv = path(f, f.children(tgt)[0]) if tgt is not None and tgt["k"] == "UnaryOperator" and tgt["op"] == "*" else None
+            ptrs.append(pv)
+        for a, pv in zip(applies, ptrs):
+            other = [p for p in ptrs if p != pv]
+            other = other[0] if other else None
+            tr = None
+            for anc in f.ancestors(a):
+                if anc["k"] == "CXXTryStmt" and any(d["id"] == a["id"] for d in f.descendants(f.s(anc["try"]))):
+                    tr = anc
+                    break
+            ok = tr is not None
+            ctx.ob(rid, ok, f.loc(a), "the application is inside a try block", "" if ok else
+                   "a throwing functor leaves the two copies different", fn=f.label, inst=f.qname)
+            if not ok:
+                continue
+            good = False
+            detail = "no catch (...) handler"
+            for hid in tr["handlers"]:
+                h = f.s(hid)
+                if not h.get("all"):
+                    continue
+                body = f.s(h["body"])
+                asg = []
+                for d in f.descendants(body):
+                    if d["k"] == "CXXOperatorCallExpr" and d.get("op") == "=" and len(d["args"]) == 2:
+                        l = unwrap(f, f.s(d["args"][0]))
+                        r = unwrap(f, f.s(d["args"][1]))
+                        lp = path(f, f.children(l)[0]) if l is not None and l["k"] == "UnaryOperator" and l["op"] == "*" else None
+                        rp = path(f, f.children(r)[0]) if r is not None and r["k"] == "UnaryOperator" and r["op"] == "*" else None
+                        asg.append((lp, rp))
+                    if d["k"] == "BinaryOperator" and d["op"] == "=":
+                        l, r = [unwrap(f, x) for x in f.children(d)]
+                        lp = path(f, f.children(l)[0]) if l is not None and l["k"] == "UnaryOperator" and l["op"] == "*" else None
+                        rp = path(f, f.children(r)[0]) if r is not None and r["k"] == "UnaryOperator" and r["op"] == "*" else None
+                        if lp or rp:
+                            asg.append((lp, rp))
+                rethrow = any(d["k"] == "CXXThrowExpr" and d.get("rethrow") for d in f.descendants(body))
+                if (pv, other) in asg and rethrow and all(l == pv for l, _ in asg):
+                    good = True
+                else:
+                    detail = "handler assignments %s, rethrow=%s; expected *%s = *%s; throw;" % (asg, rethrow, pv, other)
+            ctx.ob(rid, good, f.loc(a), "its catch(...) restores the written copy from the other copy and rethrows",
+                   "" if good else detail, fn=f.label, inst=f.qname)
+        # first application precedes every flag store
+        stores = [op for op in atomic_ops(f) if op["op"] in ("store", "rmw", "cas") and (atomic_field_of(f, op) or ("", ""))[0] == LR]
+        if applies and stores:
+            ap = sorted(applies, key=lambda s: (-f.pos_of(s)[0], f.pos_of(s)[1]))[0]
+            ok = all(f.dominates(f.pos_of(ap), f.pos_of(s["st"])) for s in stores)
+            ctx.ob(rid, ok, f.loc(ap), "the first application precedes every store to the protocol flags (a throw leaves them untouched)",
+                   "" if ok else "a flag is flipped before the first application can throw", fn=f.label, inst=f.qname)
+
+
